@@ -65,6 +65,12 @@ struct Case {
 	/// instead of from memory; ignored when that format cannot hold the (format, compression) pair
 	#[serde(default)]
 	source: Option<(Target, u32)>,
+	/// coordinate transforms of the converter (flip: y -> 2^z-1-y, then swap: x <-> y); they must
+	/// not interfere with the recompression
+	#[serde(default)]
+	flip_y: bool,
+	#[serde(default)]
+	swap_xy: bool,
 }
 
 fn pay() -> impl Strategy<Value = PayClass> {
@@ -79,8 +85,8 @@ fn pay() -> impl Strategy<Value = PayClass> {
 }
 
 fn strategy() -> impl Strategy<Value = Case> {
-	(0usize..5, 0usize..3, proptest::option::weighted(0.75, 0usize..3), any::<bool>(), 0usize..10, 8u8..14, proptest::collection::vec((0u8..8, 0u8..8, pay()), 1..6), proptest::option::weighted(0.8, vt::gen::meta_doc()), proptest::option::weighted(0.4, (0usize..5, any::<u32>())))
-		.prop_map(|(t, s, tc, force, f, z, tiles, meta, source)| {
+	(0usize..5, 0usize..3, proptest::option::weighted(0.75, 0usize..3), any::<bool>(), 0usize..10, 8u8..14, proptest::collection::vec((0u8..8, 0u8..8, pay()), 1..6), proptest::option::weighted(0.8, vt::gen::meta_doc()), proptest::option::weighted(0.4, (0usize..5, any::<u32>())), (prop::bool::weighted(0.25), prop::bool::weighted(0.25)))
+		.prop_map(|(t, s, tc, force, f, z, tiles, meta, source, (flip_y, swap_xy))| {
 			let target = Target::ALL[t];
 			let source_comp = Comp::ALL[s];
 			let mut target_comp = tc.map(|i| Comp::ALL[i]);
@@ -111,7 +117,7 @@ fn strategy() -> impl Strategy<Value = Case> {
 				}
 			}
 			let source = source.map(|(i, seed)| (Target::ALL[i], seed)).filter(|(t, _)| t.accepts(format, source_comp));
-			Case { target, format, source_comp, target_comp, force, z, tiles, meta, source }
+			Case { target, format, source_comp, target_comp, force, z, tiles, meta, source, flip_y, swap_xy }
 		})
 }
 
@@ -141,14 +147,26 @@ fn oracle(case: &Case, obs: &mut Obs) -> Result<(), Fail> {
 
 	let path = case.target.fresh_path();
 	let _g = TmpGuard(path.clone());
-	let cp = TilesConverterParameters::new(case.target_comp.map(|c| c.to_vt()), None, case.force, false, false);
+	let cp = TilesConverterParameters::new(case.target_comp.map(|c| c.to_vt()), None, case.force, case.flip_y, case.swap_xy);
+	// where a source tile ends up
+	let moved = |c: &Coord| -> Coord {
+		let mut c = *c;
+		if case.flip_y {
+			c = c.flip();
+		}
+		if case.swap_xy {
+			c = c.swap();
+		}
+		c
+	};
+	let raw: BTreeMap<Coord, Vec<u8>> = raw.iter().map(|(c, b)| (moved(c), b.clone())).collect();
 	let p = path.to_str().unwrap().to_string();
 	match guard(|| util::block_on(convert_tiles_container(src, cp, &p))) {
 		Ok(Ok(())) => {}
 		Ok(Err(e)) => fail!("recompress:convert-error", "conversion {:?}->{:?} (force={}) to {} failed: {e:#}", case.source_comp, case.target_comp, case.force, case.target.name()),
 		Err(pi) => return Err(Fail::from_panic("conversion", &pi)),
 	}
-	let ctx = format!("{} {:?}: {:?} -> {:?} force={}", case.target.name(), case.format, case.source_comp, case.target_comp, case.force);
+	let ctx = format!("{} {:?}: {:?} -> {:?} force={}{}{}", case.target.name(), case.format, case.source_comp, case.target_comp, case.force, if case.flip_y { " flip-y" } else { "" }, if case.swap_xy { " swap-xy" } else { "" });
 
 	// independent decoder
 	let dec = decode_independent(case.target, &path).map_err(|e| Fail::new("layout:undecodable", format!("{ctx}: independent decoder rejects the output: {e}")))?;
@@ -198,6 +216,7 @@ fn oracle(case: &Case, obs: &mut Obs) -> Result<(), Fail> {
 	obs.label(format!("{}->{}{}", case.source_comp.name(), case.target_comp.map(|c| c.name()).unwrap_or("keep"), if case.force { "+force" } else { "" }));
 	let big = raw.values().any(|b| b.len() > 65536);
 	obs.label_if(big, "payload>64KiB");
+	obs.label_if(case.flip_y || case.swap_xy, "with-flip-or-swap");
 	obs.label_if(raw.values().any(|b| b.len() == 1), "payload=1B");
 	obs.label_if(raw.values().any(|b| b.is_empty()), "payload=0B(compressed)");
 	obs.nontrivial(case.force || case.target_comp.map(|c| c != case.source_comp).unwrap_or(false));
@@ -208,7 +227,7 @@ fn main() {
 	let mut check = Check::from_args(
 		"C04",
 		"exploration",
-		"1-5 raw payloads per case from the classes {0 bytes (only between compressed source and compressed output), 1 byte, incompressible 200 B-4 KiB, compressible 10-100 KiB, 70 KiB mixed, tiny} stored in an in-memory source, or in a container of any of the five formats written by the harness's encoder (generated layout: PMTiles leaf directories and internal compressions, sparse versatiles blocks, MBTiles views ...), compressed with flate2/brotli directly (3 source compressions) x target compression {keep, none, gzip, brotli} x force flag x 5 target formats (format chosen so that the pair is expressible) x TileJSON document; oracle: independent decoder of the output: declared compression = requested, every tile decoded with the harness's decompressor for the declared compression = raw payload, metadata decodes to the same JSON keys; non-trivial = target differs from the source compression or recompression is forced",
+		"1-5 raw payloads per case from the classes {0 bytes (only between compressed source and compressed output), 1 byte, incompressible 200 B-4 KiB, compressible 10-100 KiB, 70 KiB mixed, tiny} stored in an in-memory source, or in a container of any of the five formats written by the harness's encoder (generated layout: PMTiles leaf directories and internal compressions, sparse versatiles blocks, MBTiles views ...), compressed with flate2/brotli directly (3 source compressions) x target compression {keep, none, gzip, brotli} x force flag x flip-y / swap-xy (a quarter of the cases each) x 5 target formats (format chosen so that the pair is expressible) x TileJSON document; oracle: independent decoder of the output: declared compression = requested, every tile decoded with the harness's decompressor for the declared compression = raw payload, metadata decodes to the same JSON keys; non-trivial = target differs from the source compression or recompression is forced",
 	);
 	check.assume("flate2 and brotli crates as independent reference implementations of gzip/brotli");
 	vt::engine::watchdog(3600);
